@@ -32,6 +32,7 @@ import OpenFGAVerif.Proofs.CtxSplit
 import OpenFGAVerif.Props.C30
 import OpenFGAVerif.Props.C24
 import OpenFGAVerif.Gen.CombinedReader
+import OpenFGAVerif.Gen.ReqScope
 import OpenFGAVerif.Props.ReqClone
 
 namespace OpenFGAVerif.C04
@@ -412,6 +413,42 @@ theorem ctxIndex_mem (ctx : List Tuple) (huniq : CtxSplit.KeyUnique ctx) (o r ut
     have : x = t := huniq x hxm.1 t ht.1 (hxm.2.1.trans ht.2.1.symm) (hxm.2.2.1.trans ht.2.2.1.symm) hk
     exact this ▸ hx
 
+/-! ### the wildcard lookup of `specificTypeWildcard` over an index entry -/
+
+/-- a lookup that walks the whole list finds an element satisfying `p` iff there is one — wherever it sits -/
+theorem find_isSome_iff {α : Type} (p : α → Bool) (l : List α) : (l.find? p).isSome ↔ ∃ x ∈ l, p x = true := by
+  simp [List.find?_isSome]
+
+/-- **The wildcard lookup needs the whole bucket.**  With pairwise different tuple keys, the lookup of
+`specificTypeWildcard` over the index entry of `(object, relation, userType)` finds a tuple iff the request
+carries a typed-wildcard contextual tuple filed under that key — WHEREVER it sorts among the users of the
+entry — and what it finds is such a tuple of the request. -/
+theorem ctxWildcard_found_iff (ctx : List Tuple) (huniq : CtxSplit.KeyUnique ctx) (o r ut : String) :
+    ((ctxWildcardLookup (ctxByObject ctx o r ut)).isSome ↔
+      ∃ t ∈ ctx, t.obj = o ∧ t.rel = r ∧ indexUserType t.user = ut ∧ isTypedWildcard t.user = true) ∧
+    (∀ t, ctxWildcardLookup (ctxByObject ctx o r ut) = some t →
+      t ∈ ctx ∧ t.obj = o ∧ t.rel = r ∧ indexUserType t.user = ut ∧ isTypedWildcard t.user = true) := by
+  constructor
+  · rw [ctxWildcardLookup, find_isSome_iff]
+    constructor
+    · rintro ⟨t, ht, hw⟩
+      have := (ctxIndex_mem ctx huniq o r ut t).mp ht
+      exact ⟨t, this.1, this.2.1, this.2.2.1, this.2.2.2, hw⟩
+    · rintro ⟨t, ht, h1, h2, h3, hw⟩
+      exact ⟨t, (ctxIndex_mem ctx huniq o r ut t).mpr ⟨ht, h1, h2, h3⟩, hw⟩
+  · intro t ht
+    have hm := List.mem_of_find?_eq_some ht
+    have hw := List.find?_some ht
+    have := (ctxIndex_mem ctx huniq o r ut t).mp hm
+    exact ⟨this.1, this.2.1, this.2.2.1, this.2.2.2, hw⟩
+
+/-- **An index-0 shortcut is not a lookup**: whenever the first entry of a bucket is no wildcard but a later
+one is, looking at the head only misses the wildcard that the loop finds. -/
+theorem ctxWildcard_head_only_incomplete (a w : Tuple) (rest : List Tuple)
+    (ha : isTypedWildcard a.user = false) (hw : isTypedWildcard w.user = true) :
+    ctxWildcardHeadOnly (a :: w :: rest) = none ∧ ctxWildcardLookup (a :: w :: rest) = some w := by
+  simp [ctxWildcardHeadOnly, ctxWildcardLookup, ha, hw]
+
 /-! ## Check (default engine) -/
 
 /-- **c04_check** — see `Proofs/CtxSplit.lean`. -/
@@ -506,6 +543,23 @@ theorem iterator_cache_never_sees_ctx (rd : K → List Tuple) (sel : List Tuple 
     · rw [ih.1, h1.1]
     · exact ih.2.1
 
+/-- **One command, many Execute calls (BatchCheck).**  With the request wrapper built inside `Execute`
+(`perExecute = true`, tied to the source by `tie_request_wrapper_scope`), every call of a shared command is
+answered with ITS OWN contextual tuples in front of the datastore's answer, whatever the other calls carry. -/
+theorem shared_command_each_call_own_ctx (rd : K → List Tuple) (sel : List Tuple → K → List Tuple)
+    (calls : List (List Tuple × K)) (c : IterCache K) (hs : CacheSound rd c) :
+    (serveCalls rd sel true c calls).1 = calls.map (fun p => sel p.1 p.2 ++ rd p.2) := by
+  simp only [serveCalls, if_true]
+  exact (iterator_cache_never_sees_ctx rd sel calls c hs).1
+
+/-- a wrapper memoised on the command answers every call with the contextual tuples of the FIRST call -/
+theorem memoised_wrapper_first_ctx (rd : K → List Tuple) (sel : List Tuple → K → List Tuple)
+    (ctx0 : List Tuple) (k0 : K) (rest : List (List Tuple × K)) (c : IterCache K) (hs : CacheSound rd c) :
+    (serveCalls rd sel false c ((ctx0, k0) :: rest)).1 = ((ctx0, k0) :: rest).map (fun p => sel ctx0 p.2 ++ rd p.2) := by
+  simp only [serveCalls, Bool.false_eq_true, if_false]
+  rw [(iterator_cache_never_sees_ctx rd sel _ c hs).1]
+  simp [List.map_map, Function.comp_def]
+
 end stack
 
 section keys
@@ -582,6 +636,34 @@ theorem tie_v2_indexes :
        "if:sortKey == \"object\"", "if:existingKey == newKey", "return slice", "slice = slices.Insert(slice, i, t)", "return slice"] := by
   decide
 
+set_option maxRecDepth 200000 in
+/-- the contextual part of `specificTypeWildcard`: a loop over the WHOLE bucket that takes the first typed
+wildcard and stops there (no index-0 shortcut, no break before a match) — `ctxWildcardLookup` -/
+theorem tie_v2_wildcard_lookup :
+    Gen.CombinedReader.wildcardCtxLookup =
+      ["if ctxTuples, ok := req.GetContextualTuplesByObjectID(req.GetTupleKey().GetObject(), relation, req.GetUserType()); ok", "{",
+       "for _, ct := range ctxTuples", "{", "if tuple.IsTypedWildcard(ct.GetUser())", "{",
+       "iter = storage.NewStaticTupleKeyIterator([]*openfgav1.TupleKey{ct})", "break", "}", "}", "}"] := by
+  decide
+
+set_option maxRecDepth 200000 in
+/-- **where the request-scoped datastore view is built** (`Gen.ReqScope`, extract/facts_reqscope.go): the only
+call of NewRequestStorageWrapperWithCache in check_command.go is a top-level statement of
+`CheckQuery.Execute` (not inside a function literal) taking the contextual tuples of THAT call's params; the
+resulting local variable is what the resolver reads through; Execute writes no field of the command, calls no
+`.Do(`, and the struct has no field that could keep a wrapper, a once or tuples between calls.  Likewise the
+weighted-graph command builds its `check.Request` per call from the params. -/
+theorem tie_request_wrapper_scope :
+    Gen.ReqScope.v1WrapperSites = ["CheckQuery.Execute:funclit-depth=0"] ∧
+    Gen.ReqScope.v1WrapperStmt = "datastoreWithTupleCache := storagewrappers.NewRequestStorageWrapperWithCache" ∧
+    Gen.ReqScope.v1WrapperArgs = ["c.datastore", "params.ContextualTuples.GetTupleKeys()"] ∧
+    Gen.ReqScope.v1ContextReader = ["ctx", "datastoreWithTupleCache"] ∧
+    Gen.ReqScope.v1ReceiverWrites = [] ∧ Gen.ReqScope.v1DoCalls = [] ∧ Gen.ReqScope.v1MemoFields = [] ∧
+    Gen.ReqScope.v2RequestStmt = "r, err := check.NewRequest" ∧
+    Gen.ReqScope.v2RequestContextualTuples = "params.ContextualTuples.GetTupleKeys()" ∧
+    Gen.ReqScope.v2ReceiverWrites = [] ∧ Gen.ReqScope.v2ResolveCalls = ["resolver.ResolveCheck(ctx, r)"] := by
+  decide
+
 /-! ## Non-vacuity -/
 
 def tA : Tuple := { obj := "doc:1", rel := "viewer", user := "user:a", cond := "", ctx := [] }
@@ -600,6 +682,16 @@ example : CtxSplit.KeyUnique ([tC] ++ [tA, tB]) := by
 sees stored tuples only -/
 example : (runReads (fun k : Nat => if k = 0 then [tC] else []) (fun ctx _ => ctx) [] [([tA], 0), ([], 0), ([tB], 1)]).1 =
     [[tA, tC], [tC], [tB]] := by decide
+
+/-- a memoised wrapper leaks: the second call (no contextual tuples of its own) sees the first call's tuple -/
+example : (serveCalls (fun _ : Nat => ([] : List Tuple)) (fun ctx _ => ctx) false [] [([tA], 0), ([], 1)]).1 = [[tA], [tA]] ∧
+    (serveCalls (fun _ : Nat => ([] : List Tuple)) (fun ctx _ => ctx) true [] [([tA], 0), ([], 1)]).1 = [[tA], []] := by decide
+
+/-! evaluated witnesses for the wildcard lookup: `user:$svc` sorts before `user:*`, so the index entry is
+`[user:$svc, user:*]`; the loop finds the wildcard, a look at index 0 does not -/
+#guard (ctxByObject [{ tA with user := "user:*" }, { tA with user := "user:$svc" }] "doc:1" "viewer" "user").map (·.user) = ["user:$svc", "user:*"]
+#guard (ctxWildcardLookup (ctxByObject [{ tA with user := "user:*" }, { tA with user := "user:$svc" }] "doc:1" "viewer" "user")).map (·.user) = some "user:*"
+#guard (ctxWildcardHeadOnly (ctxByObject [{ tA with user := "user:*" }, { tA with user := "user:$svc" }] "doc:1" "viewer" "user")).isNone
 
 /-! evaluated witnesses (string splitting does not reduce in the kernel): the sorted
 `ReadStartingWithUser` keeps one tuple per object, and the contextual side ignores `ObjectIDs` -/
